@@ -121,7 +121,8 @@ def eval_entry(
         last_char = value[-1]
 
         if first_char != last_char or first_char not in ("'", '"'):
-            value = '"' + value + '"'
+            # Note: 'repr' also escapes backslashes and quotes (e.g. 'C:\\data\\new.fits')
+            value = repr(value)
 
     new_value = literal_eval(value)
     assert isinstance(new_value, str | Number | Sequence)
